@@ -172,6 +172,7 @@ class World:
                 "pos": len(sink.entries),
                 "stamp": r.time,
                 "alloc": {c.symbol: float(v) for c, v in r.allocation.items()},
+                "measure": type(r.allocation).__name__, "fractional": bool(r.fractional),
                 "books": {n: (ex[c].bid_price, ex[c].ask_price, ex[c].is_alive) for n, c in contracts.items()},
                 "rebalancing": r,
             }
@@ -345,6 +346,9 @@ def compare_call(w, rec, out, val, soft, track_before, pos_before):
                 if w.trade:
                     exp_alloc = w.expected_alloc(x["act"])
                     ga = got_x["alloc"]
+                    exp_measure = "NrContracts" if cfg["space"] == "boxlots" else "Weights"
+                    if got_x.get("measure") != exp_measure:
+                        fails.append(("allocation", "action executed as %s, the space denotes %s" % (got_x.get("measure"), exp_measure)))
                     if set(ga) != set(exp_alloc) or any(abs(ga[c] - exp_alloc[c]) > 1e-12 for c in ga):
                         msg = ("executed allocation %s at step %s, spec: the action submitted %d step(s) earlier "
                                "(id %s) denotes %s" % (ga, x["call"], cfg["delay"], x["act"], exp_alloc))
